@@ -1279,7 +1279,6 @@ func (ef *Effects) globalsRead() []string {
 	return sortedKeys(m)
 }
 
-
 // structCopyReads: x loads a whole library struct through a pointer (v := *p). The load is a read of every
 // field of *p — except the fields that the copy overwrites at once: when the loaded value is only stored into
 // a fresh local, fields of that local stored later in the same block never show what *p held. Returns false
@@ -1339,7 +1338,6 @@ func (a *effAnalysis) structCopyReads(x *ssa.UnOp) bool {
 	}
 	return true
 }
-
 
 // onlyUnreadMapEntry: the loaded value is used for nothing but the value of one entry m[k] = v of a map the
 // function builds itself (a literal), k a constant, and every lookup in that map has — under the constant
